@@ -5,6 +5,7 @@ pub mod entry;
 pub mod evidence;
 pub mod explore;
 pub mod invariance;
+pub mod messages;
 pub mod oracles;
 pub mod probe;
 pub mod props;
@@ -54,6 +55,9 @@ pub fn main_with(entries: Vec<entry::Entry>, cat: mc_desc::Catalogue) -> i32 {
         "C10" => props::run_c10(&e),
         "C11" => props::run_c11(&e),
         "C12" => props::run_c12(&e),
+        "C14" => messages::run_c14(&e),
+        "C15" => invariance::run_c15(&e),
+        "deep-child" => deep::child(&e, args.get(2).map(|s| s.as_str()).unwrap_or("")),
         "C05" => pure::run_c05(tier),
         "C13" => pure::run_c13(tier),
         "C17" => pure::run_c17(tier),
